@@ -39,6 +39,7 @@ def run(ctx):
     ctx.extra["session_configs"] = [{"blocked": b, "document_exception": d} for b, d in configs]
     ctx.extra["session_exchanges"] = 0
     ctx.extra["session_trace_events"] = 0
+    ctx.tlaps("ProxyProofs")     # StableType, inductive invariant => NoLeak / CondOnlyForStatic, for EVERY rule set (TLAPS)
     for n, (blocked, docexc) in enumerate(configs):
         cfg = constants(blocked, docexc) + "INIT Init\nNEXT Next\n" + "".join("INVARIANT %s\n" % i for i in INVS) + "CHECK_DEADLOCK FALSE\n"
         r = ctx.tlc("MC_ProxySession", cfg, timeout=900)
